@@ -45,6 +45,7 @@ KERNELS = {
     "map_valid": {"owner": "C04"},
     "ordered_map_valid_partial": {"owner": "C04", "mutated": [5]},   # result_data is written in place
     "ordered_map_valid_indexed_partial": {"owner": "C04", "mutated": [8, 9]},  # result_indices, result_values
+    "safe_map_values": {"owner": "C04"},
     "next_map_subchunk": {"owner": "C04"},
     "get_valid_value_extents": {"owner": "C04"},
     "generate_ordered_map_to_left_both_unique_partial": {"owner": "C03", "mutated": [2]},
@@ -433,9 +434,24 @@ def random_c04_indexed(rng):
                  fuel=n + 4, _from="random")
 
 
+def random_c04_safe_map(rng):
+    nsrc = rng.choice([0, 1, 2, 5, rng.randrange(1, 20)])
+    n = rng.choice([0, 1, 2, 3, rng.randrange(1, 15)])
+    src = [rng.randrange(-50, 1000) for _ in range(nsrc)]
+    bad = rng.random() < 0.15
+    m = [rng.randrange(-nsrc if bad else 0, nsrc + (2 if bad else 0)) if nsrc else rng.choice([0, -1]) for _ in range(n)]
+    filt = [rng.random() < 0.6 and nsrc > 0 for _ in range(n if rng.random() < 0.9 else rng.randrange(0, n + 1))]
+    safe = len(filt) >= n and all((not filt[i]) or -nsrc <= m[i] < nsrc for i in range(n))
+    empty = NONE if rng.random() < 0.5 else {"int": rng.choice([0, -1, 7])}
+    return gcase("safe_map_values", [arr(src), arr(m), barr(filt), empty], unsafe=not safe, _from="random")
+
+
 def random_c04(rng, n_cases):
     out = []
     for t in range(n_cases):
+        if t % 6 == 5:
+            out.append(random_c04_safe_map(rng))
+            continue
         if t % 5 == 4:
             out.append(random_c04_indexed(rng))
             continue
